@@ -1,7 +1,7 @@
 (* Props/C30.v — Bulk load equals transactional load.
    Only statements, `exact`, and Print Assumptions. *)
 From Coq Require Import Permutation.
-From NDB Require Import Engine.Graph Engine.Model Engine.Known Engine.Witness Engine.Refine_proofs Engine.Compact_reads_proofs Engine.Bulk_proofs.
+From NDB Require Import Engine.Graph Engine.Model Engine.Known Engine.Witness Engine.Refine_proofs Engine.Compact_reads_proofs Engine.Bulk_proofs Engine.Bulk_join_proofs Engine.Bulk_equiv_proofs.
 
 Definition C30_refuted_statement : Prop :=
   m_eprops (bulk_open w_bn w_be) e01 = [(0, 1)] /\ m_eprop (bulk_open w_bn w_be) e01 0 = Some 5 /\
@@ -39,3 +39,27 @@ Definition C30_txn_reads_partial_statement : Prop :=
 Theorem C30_txn_reads_partial : C30_txn_reads_partial_statement.
 Proof. exact load_txns_reads. Qed.
 Print Assumptions C30_txn_reads_partial.
+
+(* the joining lemma: the spec graph of the load is the graph the input describes (node table with the
+   bulk interner's label ids; relationships as a multiset with the bulk interner's type ids) *)
+Definition C30_spec_of_load_statement : Prop :=
+  forall ns es, wf_hist (load_txns ns es) = true ->
+    let g := spec (load_txns ns es) in
+    g_nodes g = map gnode_of (map (fun n : bnode => (fst (fst n), index_name (snd (fst n)) (bulk_intr ns es) 0)) ns) /\
+    Permutation (g_edges g) (map (bulk_ekey ns es) es).
+Theorem C30_spec_of_load : C30_spec_of_load_statement.
+Proof. exact spec_load_txns. Qed.
+Print Assumptions C30_spec_of_load.
+
+(* C30 for every read interface except the two whole-map reads: for every valid input whose load history
+   is well-formed (an executable condition; met by the Example `load_nonvacuous` of Bulk_proofs.v, an input
+   with parallel relationships, a self loop and a name shared by a label and a type), the bulk-loaded and
+   the transactionally loaded database agree on nodes(), neighbors / incoming_neighbors as multisets,
+   node_property, edge_property, labels, external ids and lookup.  Parallel relationships need not be
+   excluded here: K-C30-parallel-props only shows in the whole-map reads, which this theorem leaves out. *)
+Definition C30_bulk_equiv_txn_partial_statement : Prop :=
+  forall ns es, bulk_valid ns es = true -> wf_hist (load_txns ns es) = true ->
+    same_reads (bulk_open ns es) (run (load_txns ns es)).
+Theorem C30_bulk_equiv_txn_partial : C30_bulk_equiv_txn_partial_statement.
+Proof. exact bulk_equiv_txn. Qed.
+Print Assumptions C30_bulk_equiv_txn_partial.
